@@ -254,7 +254,7 @@ class Emitter:
             fl.append('{ID: %d, Req: %s, T: %s, Ptr: %s, HasDef: %s, Def: %s, Assign: %s, NoCopy: %s, Name: "%s"}' % (
                 f.id, REQ[f.req], rt, 'true' if f.is_ptr() else 'false', 'true' if sd.has_init else 'false', d, assign,
                 'true' if f.nocopy else 'false', f.name))
-        self.inits.append('st_%s.Fields = []RField{\n\t\t%s,\n\t}' % (sd.name, ',\n\t\t'.join(fl)))
+        self.inits.append('st_%s.Fields = []RField{\n\t\t%s,\n\t}' % (sd.name, ',\n\t\t'.join(fl)) if fl else 'st_%s.Fields = []RField{}' % sd.name)
         # fillS / refS
         fo = self.funcs
         lines = ['func fillS_%s(p *%s, name string, depth int) {' % (sd.name, sd.name)]
@@ -266,6 +266,10 @@ class Emitter:
                     f.name, gt, h, f.name, f.name))
             else:
                 lines.append('\tfill_%s(&p.%s, name+".%s", depth)' % (h, f.name, f.name))
+                if f.default is not None and f.typ[0] in ('string', 'binary'):
+                    # (job parameter alias=1) the value may share storage with the declared default: a prefix of it
+                    lines.append('\tif vrt.ParamOr("alias", 0) == 1 && pick(name+".%s.alias", 2) == 1 {\n\t\tvar d %s\n\t\td.InitDefault()\n\t\tp.%s = d.%s[:pick(name+".%s.alen", len(d.%s)+1)]\n\t}' % (
+                        f.name, sd.name, f.name, f.name, f.name, f.name))
         if sd.has_unknown:
             lines.append('\tp._unknownFields = fillUnknown(name + "._unknown")')
         lines.append('}')
